@@ -121,6 +121,10 @@ without the F1 repair. All runs: exit 1 with VIOLATION lines. mainchain/blockcha
   nonce                               collision check                                                                      path=commitBlock block={executed-only,with-rejected} oracle=sender-nonce-plus-one, oracle=tx-executed-at-most-once;
                                                                                                                           blocks=same-tx-in-consecutive-blocks oracle={executed-tx-not-executed-again, executed-tx-not-charged-again}
                                       (MISSED before the collision family existed: no world in which CreateAddress(sender, nonce) or a factory's derived address was occupied, no CREATE2 with a repeated salt)
+  seeded-j-selfdestruct-repeat-keeps- kvm opSuicide: Suicide(self) only if !HasSuicided(self), the     pass        caught  path=ApplyTransaction tx=call-factory/ok oracle=conservation (driver 3x CALL with value into SELFDESTRUCT-to-another-EOA:
+  balance                             beneficiary is still credited every time                                            sum of all balances +1000)
+                                      (MISSED by quick before the driver family existed: it needs three entries into one self-destructing contract in one transaction, i.e. a 3-action
+                                      program [CALL(SDOTHER)]x3, which only the thorough tier enumerates)
   (not a mutant) F1 repair            commitBlock restores the pool / TransitionDb returns the gas    -           exit 0  none
 
 9 of 9 mutants survive the repository's own tests of the touched package; every one is caught by the quick tier.
